@@ -321,6 +321,22 @@ fn accumulation_pass(thorough: bool) -> (u64, u64, Vec<Violation>) {
                                 problem = Some(format!("{} frames after the run, the reference machine holds {}", snap.stack.len(), m.frames.len()));
                             }
                         }
+                        // run it again in the same interpreter: what the first run left open is gone,
+                        // the second run ends like the first
+                        let mut s = s;
+                        if problem.is_none() && !matches!(end, RunEnd::Cap | RunEnd::Panic(_)) && len <= 3 {
+                            if s.state() != InterpreterState::Idle {
+                                let _ = s.apply(&Ev::Break);
+                            }
+                            let first: Vec<String> = s.it.verif_snapshot().loops.iter().map(|l| l.symbol.clone()).collect();
+                            let mut none = std::iter::empty();
+                            s.recs.clear();
+                            let end2 = s.run_line("RUN", &mut none, 1000);
+                            let second: Vec<String> = s.it.verif_snapshot().loops.iter().map(|l| l.symbol.clone()).collect();
+                            if format!("{:?}", end2) != format!("{:?}", end) || second != first {
+                                problem = Some(format!("a second RUN in the same interpreter ends {:?} with open loops {:?}; the first ended {:?} with {:?}", end2, second, end, first));
+                            }
+                        }
                         if let Some(w) = problem {
                             out.push(Violation {
                                 signature: format!("grammar program: {}", w.chars().filter(|c| !c.is_ascii_digit()).collect::<String>()),
